@@ -486,7 +486,7 @@ def simulate_rr(ctx, c, num, length):
         f.write("---- MODULE G_rr ----\nEXTENDS ReqResGen\n====\n")
     with open(os.path.join(d, "G_rr.cfg"), "w") as f:
         f.write("INIT GenInit\nNEXT GenNext\nCONSTANTS\n" + rr_constants(c, 6, 3, True, True, True, True, min(c["nc"], 2), min(c["ns"], 2))
-                + f" GenLen = {length}\n GenLean = FALSE\n GenMinimal = FALSE\n WitnessMax = 0\nCHECK_DEADLOCK FALSE\n"
+                + f" GenLen = {length}\n GenLean = FALSE\n GenMinimal = FALSE\n GenDeath = FALSE\n WitnessMax = 0\nCHECK_DEADLOCK FALSE\n"
                   "INVARIANT Behaviour\n")
     res = vp.tlc(d, "G_rr", workers=1, timeout=600, libs=["api"], coverage=False, simulate=f"num={3 * num}",
                  extra=["-depth", "400", "-seed", str(ctx.seed)])
